@@ -175,7 +175,7 @@ func (l *Lexer) readIdentifierOrKeyword() string {
 		l.readChar() // consume the space
 		if l.ch == 'N' {
 			restOfKeyword := l.readWord()
-			if restOfKeyword == "NOT" {
+			if restOfKeyword == "NOT" && l.ch == ' ' {
 				l.readChar() // consume the space
 				if l.readWord() == "EXIST" {
 					return "DOES NOT EXIST"
